@@ -136,6 +136,33 @@ func decodeOnce(msg *protocol.Message, stream []byte) (obs decObs) {
 	return decObs{ok: true, msg: showMsg(msg), rest: rd.Len()}
 }
 
+// c02AfterRefusal: one message object, never reset: the stream is decoded, decoded again, then the valid frame it was
+// made from, then the stream once more - each time with the outcome a fresh object gives (a refused frame is refused
+// again; what a failed decode leaves in the object shows nowhere).  Oracle only.  case: again|<stream>|<valid frame>
+func c02AfterRefusal(o *common.Out, id string, stream, valid []byte) {
+	abstract := "again|" + hx(stream) + "|" + hx(valid)
+	o.Begin(id, abstract)
+	o.Count("same-object-after-a-refusal")
+	msg := protocol.NewMessage()
+	for i, st := range [][]byte{stream, stream, valid, stream} {
+		got := decodeOnce(msg, st)
+		fresh := decodeOnce(protocol.NewMessage(), st)
+		if got.panic != "" {
+			o.Fail(id, "decode-panic", fmt.Sprintf("decode %d on the same object panicked: %s", i, got.panic), abstract)
+			return
+		}
+		if got.String() != fresh.String() {
+			sg := "depends-on-object-history"
+			if _, rerr := refcodec.Parse(st); rerr != nil && got.ok {
+				sg = "success-on-malformed"
+			}
+			o.Fail(id, sg, fmt.Sprintf("decode %d on an object that was never reset gives %s, a fresh object gives %s", i, got, fresh), abstract)
+			return
+		}
+	}
+	o.ImplOnly(id, abstract, true)
+}
+
 func c02Run(o *common.Out, id string, max int, steps []c02step, kind string) {
 	abstract := c02abstract(max, steps)
 	o.Begin(id, abstract)
@@ -494,6 +521,11 @@ func runC02(r *common.Rand, tier string, o *common.Out, replay string) {
 		}
 	}
 	protocol.Compressors[protocol.CompressType(2)] = &protocol.SnappyCompressor{}
+	if strings.HasPrefix(replay, "again|") {
+		p := strings.Split(replay, "|")
+		c02AfterRefusal(o, "replay", unhx(p[1]), unhx(p[2]))
+		return
+	}
 	if replay != "" {
 		p := strings.Split(replay, "|")
 		max, _ := strconv.Atoi(p[1])
@@ -592,6 +624,9 @@ func runC02(r *common.Rand, tier string, o *common.Out, replay string) {
 				}
 				c02Run(o, next(), max, []c02step{{stream: mut}}, "length-field-"+fo.name)
 				c02Run(o, next(), max, withPrime(mut, r.Bool()), "length-field-"+fo.name+"-reused")
+				if max == 0 {
+					c02AfterRefusal(o, next(), mut, frame)
+				}
 			}
 		}
 		// (f) MaxMessageLength around the frame's total
